@@ -222,7 +222,9 @@ def _hex(s):
     return tuple(int(s[k : k + 2], 16) for k in (0, 2, 4))
 
 
-def parse_tikz(doc):
+def parse_tikz_strict(doc):
+    """First, line-exact parser (relies on the emitter's comment lines and blank lines).  Kept as a cross-check
+    for the structure-based parse_tikz below (selftest/test_oracles.py compares the two)."""
     if isinstance(doc, bytes):
         doc = doc.decode("utf-8")
     P = Picture("tikz")
@@ -455,4 +457,260 @@ def parse_tikz(doc):
     for d in P.dots:
         if d["orient"] == "?":
             d["orient"] = P.axis["orient"]
+    return P
+
+
+# ---------------------------------------------------------------------------
+# Structure-based TikZ parser: layers are recognised by what they contain, not by the comment lines or
+# the blank lines between them, so cosmetic changes of the emitter do not make the document unparseable.
+
+
+class _Scope(object):
+    def __init__(self, header):
+        self.header = header
+        self.lines = []
+        self.children = []
+
+    def text(self):
+        return "\n".join(self.lines)
+
+
+def _statements(text):
+    """Split scope content into statements ending with ';' at brace depth 0."""
+    out, cur, depth = [], [], 0
+    for ch in text:
+        cur.append(ch)
+        if ch == "{":
+            depth += 1
+        elif ch == "}":
+            depth -= 1
+        elif ch == ";" and depth == 0:
+            out.append("".join(cur).strip())
+            cur = []
+    rest = "".join(cur).strip()
+    if rest:
+        raise Unparseable("dangling text in scope: %r" % rest[:60])
+    return out
+
+
+_LINK_NAME = re.compile(r"^\\draw\[color=linkColor([A-Za-z]*),")
+
+
+def parse_tikz(doc):
+    if isinstance(doc, bytes):
+        doc = doc.decode("utf-8")
+    P = Picture("tikz")
+    colours, texts = {}, {}
+    lines = doc.split("\n")
+    n = len(lines)
+    i = 0
+    while i < n and lines[i].strip() != "\\begin{document}":
+        ln = lines[i]
+        m = _DEFCOLOR.match(ln)
+        if m:
+            key = (m.group(1), m.group(2))
+            if key in colours:
+                raise Unparseable("colour macro %s%s defined twice" % key)
+            colours[key] = _hex(m.group(3))
+        elif ln.startswith("\\def\\text"):
+            buf = ln
+            while buf.count("{") != buf.count("}") and i + 1 < n and lines[i + 1].strip() != "\\begin{document}":
+                i += 1
+                buf += "\n" + lines[i]
+            m = _DEFTEXT.match(buf)
+            if not m:
+                raise Unparseable("bad text macro %r" % buf[:60])
+            if m.group(1) in texts:
+                raise Unparseable("text macro %s defined twice" % m.group(1))
+            texts[m.group(1)] = m.group(2)
+        i += 1
+    if i >= n:
+        raise Unparseable("no \\begin{document}")
+    P.macro_names = {"colours": sorted(k[0] + k[1] for k in colours), "texts": sorted(texts)}
+    # scope tree of the picture
+    root = None
+    stack = []
+    seen_picture = False
+    for ln in lines[i + 1:]:
+        s = ln.strip()
+        if not seen_picture:
+            if s.startswith("\\begin{tikzpicture}"):
+                if "x=1bp" not in s or "y=-1bp" not in s:
+                    raise Unparseable("unexpected tikzpicture units %r" % s)
+                seen_picture = True
+                root = _Scope(s)
+                stack = [root]
+            elif s and not s.startswith("%"):
+                raise Unparseable("text before the picture: %r" % s[:60])
+            continue
+        if s.startswith("\\end{tikzpicture}"):
+            if len(stack) != 1:
+                raise Unparseable("unbalanced scopes")
+            stack = []
+            break
+        if not stack:
+            break
+        if s.startswith("%") and not stack[-1].lines:
+            continue  # comment line between statements
+        if s == "" and not (stack[-1].lines and not stack[-1].lines[-1].rstrip().endswith(";")):
+            continue  # blank line between statements
+        if s.startswith("\\begin{scope}"):
+            sc = _Scope(s)
+            stack[-1].children.append(sc)
+            stack.append(sc)
+        elif s == "\\end{scope}":
+            if len(stack) < 2:
+                raise Unparseable("\\end{scope} without begin")
+            stack.pop()
+        else:
+            stack[-1].lines.append(ln)
+    if root is None or stack:
+        raise Unparseable("picture not closed")
+    if root.lines or len(root.children) != 1:
+        raise Unparseable("picture must hold exactly the margin scope")
+    margin = root.children[0]
+    m = _SHIFT.match(margin.header)
+    if not m or margin.lines or len(margin.children) != 1:
+        raise Unparseable("margin scope")
+    P.margin_shift = (float(m.group(1)), float(m.group(2)))
+    main = margin.children[0]
+    m = _SHIFT.match(main.header)
+    if not m or main.lines:
+        raise Unparseable("main scope")
+    P.main_shift = (float(m.group(1)), float(m.group(2)))
+    seen = set()
+    for layer in main.children:
+        if layer.header != "\\begin{scope}":
+            raise Unparseable("layer scope with options: %r" % layer.header[:60])
+        stmts = _statements(layer.text())
+        kind = None
+        if not layer.children and len(stmts) == 1 and _AXIS.match(stmts[0]):
+            kind = "axis"
+            x2, y2 = _AXIS.match(stmts[0]).groups()
+            if y2 == "0" and x2 != "0":
+                P.axis = {"orient": "h", "length": float(x2), "raw": x2}
+            elif x2 == "0" and y2 != "0":
+                P.axis = {"orient": "v", "length": float(y2), "raw": y2}
+            elif x2 == "0" and y2 == "0":
+                P.axis = {"orient": None, "length": 0.0, "raw": "0"}
+            else:
+                raise Unparseable("axis not along a coordinate axis: (%s, %s)" % (x2, y2))
+        elif not layer.children and stmts and all(_LINK_NAME.match(st) for st in stmts):
+            kind = "links"
+            cur = None
+            for st in stmts:
+                nm = _LINK_NAME.match(st).group(1)
+                mc, ml = _CURVE.match(st), _LINE.match(st)
+                if mc:
+                    g = mc.groups()
+                    raw = list(g[1:])
+                    seg = {"type": "C", "from": (float(raw[0]), float(raw[1])), "from_raw": raw[0:2],
+                           "points": [(float(raw[2]), float(raw[3])), (float(raw[4]), float(raw[5])), (float(raw[6]), float(raw[7]))], "raw": raw[2:8]}
+                elif ml:
+                    g = ml.groups()
+                    raw = list(g[1:])
+                    seg = {"type": "L", "from": (float(raw[0]), float(raw[1])), "from_raw": raw[0:2], "points": [(float(raw[2]), float(raw[3]))], "raw": raw[2:4]}
+                else:
+                    raise Unparseable("link statement %r" % st[:100])
+                if cur is None or cur["name"] != nm:
+                    if ("linkColor", nm) not in colours:
+                        raise Unparseable("link colour macro %r undefined" % nm)
+                    cur = {"start": seg["from"], "start_raw": tuple(seg["from_raw"]), "segments": [], "colour": colours[("linkColor", nm)], "name": nm}
+                    P.links.append(cur)
+                cur["segments"].append(seg)
+        elif not layer.children and stmts and all(_DOT.match(st) for st in stmts):
+            kind = "dots"
+            for st in stmts:
+                size, nm, x, y = _DOT.match(st).groups()
+                if ("dotColor", nm) not in colours:
+                    raise Unparseable("dot colour macro undefined")
+                if y == "0" and x != "0":
+                    orient, raw, across = "h", x, 0.0
+                elif x == "0" and y != "0":
+                    orient, raw, across = "v", y, 0.0
+                elif x == "0" and y == "0":
+                    orient, raw, across = "?", "0", 0.0
+                else:
+                    # both coordinates printed in full: along/across by the axis orientation
+                    orient, raw, across = "both", (x, y), None
+                P.dots.append({"pos": None if orient == "both" else float(raw), "raw": raw, "orient": orient, "across": across,
+                               "colour": colours[("dotColor", nm)], "size": size, "name": nm})
+        elif layer.children and not stmts:
+            # ticks or labels: decided by the content of the sub-scopes
+            first = _statements(layer.children[0].text())
+            if len(first) == 1 and (_BOX_FILL.match(first[0]) or _BOX_DRAW.match(first[0])):
+                kind = "labels"
+                for sc in layer.children:
+                    m = _SHIFT.match(sc.header)
+                    st = _statements(sc.text())
+                    if not m or sc.children or len(st) != 1:
+                        raise Unparseable("label scope %r" % sc.header[:60])
+                    ox, oy = m.group(1), m.group(2)
+                    mf, md = _BOX_FILL.match(st[0]), _BOX_DRAW.match(st[0])
+                    if mf:
+                        bg, w, h, tc, txt = mf.groups()
+                        border = None
+                        names = {bg, tc}
+                    elif md:
+                        bc, bg, w, h, tc, txt = md.groups()
+                        names = {bc, bg, tc}
+                        if ("borderColor", bc) not in colours:
+                            raise Unparseable("border colour macro undefined")
+                        border = colours[("borderColor", bc)]
+                    else:
+                        raise Unparseable("label statement %r" % st[0][:100])
+                    if len(names) != 1:
+                        raise Unparseable("label uses macros of different labels: %r" % sorted(names))
+                    nm = bg
+                    if ("labelBgColor", nm) not in colours or ("labelTextColor", nm) not in colours:
+                        raise Unparseable("label colour macro undefined")
+                    text = None
+                    if txt != "":
+                        if txt != "\\text" + nm:
+                            raise Unparseable("label text %r is not its own macro" % txt)
+                        if nm not in texts:
+                            raise Unparseable("text macro %s undefined" % nm)
+                        text = texts[nm]
+                    P.boxes.append({"origin": (float(ox), float(oy)), "raw_origin": (ox, oy), "w": float(w), "h": float(h), "raw_size": (w, h),
+                                    "fill": colours[("labelBgColor", nm)], "border": border, "text": text,
+                                    "text_colour": colours[("labelTextColor", nm)] if text is not None else None, "name": nm})
+            else:
+                kind = "ticks"
+                P.has_axis_layer = True
+                for sc in layer.children:
+                    buf = sc.header + "\n" + sc.text()
+                    m = _TICK.match(buf)
+                    if not m or sc.children:
+                        raise Unparseable("tick %r" % buf[:80])
+                    sx, sy = m.group(1), m.group(2)
+                    anchor = m.group(7)
+                    if anchor in ("north", "south"):
+                        orient, raw, other = "h", sx, sy
+                    elif anchor in ("east", "west"):
+                        orient, raw, other = "v", sy, sx
+                    else:
+                        raise Unparseable("tick anchor %r" % anchor)
+                    if float(other) != 0:
+                        raise Unparseable("tick shifted off the axis")
+                    P.ticks.append({"pos": float(raw), "raw": raw, "text": m.group(8), "orient": orient, "mark": (m.group(3), m.group(4), m.group(5), m.group(6))})
+        elif not layer.children and not stmts:
+            kind = "ticks"  # an axis layer without any tick
+            P.has_axis_layer = True
+        else:
+            raise Unparseable("unrecognised layer: %r" % (stmts[0][:80] if stmts else layer.children[0].header[:60]))
+        if kind in seen:
+            raise Unparseable("layer %r twice" % kind)
+        seen.add(kind)
+    for need in ("axis", "links", "labels", "dots"):
+        if need not in seen:
+            raise Unparseable("missing %s layer" % need)
+    for d in P.dots:
+        if d["orient"] == "?":
+            d["orient"] = P.axis["orient"]
+        elif d["orient"] == "both":
+            if P.axis["orient"] is None:
+                raise Unparseable("dot with two coordinates and an axis of unknown orientation")
+            x, y = d["raw"]
+            along, across = (x, y) if P.axis["orient"] == "h" else (y, x)
+            d["orient"], d["pos"], d["raw"], d["across"] = P.axis["orient"], float(along), along, float(across)
     return P
